@@ -145,7 +145,7 @@ func init() {
 	// ---- bitstr ----
 	reg("bsnew", func(a []string) string {
 		e := bitstr.New(string(parseBytes(a[0])), mustI32(a[1]), mustI32(a[2]))
-		return fmt.Sprintf("%s,%d", showBytes(e), bitstr.Len(e))
+		return fmt.Sprintf("%s,%d", outBytes(e), bitstr.Len(e))
 	})
 	reg("bscmp", func(a []string) string {
 		x := bitstr.New(string(parseBytes(a[0])), mustI32(a[1]), mustI32(a[2]))
@@ -183,11 +183,11 @@ func init() {
 		for i, w := range ws {
 			b[i] = byte(w)
 		}
-		return showBytes([]byte(bw.ToStr(b)))
+		return outBytes([]byte(bw.ToStr(b)))
 	})
 	reg("bwrt", func(a []string) string {
 		bw := bitword.BitWord[int(mustI64(a[0]))]
-		return showBytes([]byte(bw.ToStr(bw.FromStr(string(parseBytes(a[1]))))))
+		return outBytes([]byte(bw.ToStr(bw.FromStr(string(parseBytes(a[1]))))))
 	})
 	reg("bwget", func(a []string) string {
 		bw := bitword.BitWord[int(mustI64(a[0]))]
@@ -209,7 +209,7 @@ func init() {
 		}
 		p2 := make([]string, len(back))
 		for i, s := range back {
-			p2[i] = showBytes([]byte(s))
+			p2[i] = outBytes([]byte(s))
 		}
 		j := func(l []string) string {
 			if len(l) == 0 {
